@@ -223,7 +223,19 @@ Fixpoint long_ok (prev : option key) (l : list obs) : bool :=
       (match prev, b with Some p, BCur _ _ k => k_id p <=? k_id k | _, _ => true end) &&
       long_ok (match b with BCur _ _ k => Some k | _ => prev end) r
   end.
-Definition C12_long_ok (l : list obs) : bool := long_ok None l.
+(* ... and, pairwise (lifetime clause included), on the sample of the history that
+   consists of every Get and of every Current whose key id a Get asked for or got *)
+Definition get_ids (l : list obs) : list Z :=
+  flat_map (fun b => match b with
+                     | BGet _ _ id (Some k) => [id; k_id k]
+                     | BGet _ _ id None => [id]
+                     | BCur _ _ _ => [] end) l.
+Definition long_sample (l : list obs) : list obs :=
+  let ids := get_ids l in
+  filter (fun b => match b with
+                   | BGet _ _ _ _ => true
+                   | BCur _ _ k => existsb (Z.eqb (k_id k)) ids end) l.
+Definition C12_long_ok (l : list obs) : bool := long_ok None l && C12_ok (long_sample l).
 
 (* the keys handed out by Current, in call order *)
 Fixpoint curs (l : list obs) : list key :=
